@@ -1,5 +1,8 @@
 import CacheProofs.Props.C08
+import CacheProofs.Props.C08L
 open Cache.Linz
 #print axioms C08_witness_sound
 #print axioms C08_verdict_sound
 #print axioms C08_read_linearizes
+#print axioms C08_linearization_points
+#print axioms C08_single_section_ops_linearizable
